@@ -75,36 +75,36 @@ Proof. vm_compute. repeat split; reflexivity. Qed.
 
 (* ---------------------------------------------------------------- totality *)
 
-(* no native ever panics, except sort on an array that holds a function or a native method
-   (sort clones through copyValue, which refuses those and leaves a zero Value behind) *)
-Theorem methods_total : forall n args this s,
-  fst (native_call n args this s) = Panic ->
-  n = NSort /\ exists pa, this = Some pa /\
-    existsb (fun v => match v with VFn _ | VNative _ _ => true | _ => false end)
-            (contents (hp s) (load (hp s) pa)) = true.
+(* no native ever panics: whatever the native, the arguments, the receiver and the state *)
+Theorem methods_total : forall n args this s, fst (native_call n args this s) <> Panic.
 Proof. exact Methods.methods_total. Qed.
 Print Assumptions methods_total.
 
-Theorem sort_panic_iff : forall args this s,
-  fst (native_call NSort args this s) = Panic <->
-  exists pa, this = Some pa /\ forallb copyable (contents (hp s) (load (hp s) pa)) = false.
-Proof. exact Methods.sort_panic_iff. Qed.
-Print Assumptions sort_panic_iff.
+(* sort is a runtime error exactly when some element is a function or a native method (the
+   clone goes through copyValue, which refuses those); nothing is allocated or changed then *)
+Theorem sort_error_iff : forall args this s,
+  (fst (native_call NSort args this s) = Ok NError <->
+   exists pa, this = Some pa /\
+     existsb (fun v => match v with VFn _ | VNative _ _ => true | _ => false end)
+             (contents (hp s) (load (hp s) pa)) = true) /\
+  (fst (native_call NSort args this s) = Ok NError -> snd (native_call NSort args this s) = s).
+Proof. exact Methods.sort_error_iff. Qed.
+Print Assumptions sort_error_iff.
 
-Example sort_panic_iff_ex :
-  forallb copyable (contents ex_h (load ex_h ex_pa)) = true /\
-  fst (native_call NSort [] (Some ex_pa) (st_of ex_h)) <> Panic.
-Proof. vm_compute. split; [reflexivity|discriminate]. Qed.
-
-(* the precondition is not vacuous: an array holding a function makes sort panic *)
+(* both sides occur: an array holding a function, and an ordinary array *)
 Definition ex_fn_arr : heap * addr :=
   let '(c1, h1) := alloc empty_heap (VFn 0) in
   let '(arr, h2) := new_array_of h1 [c1] in
   let '(pa, h3) := alloc h2 arr in (h3, pa).
-Example methods_total_ex :
-  fst (native_call NSort [] (Some (snd ex_fn_arr)) (st_of (fst ex_fn_arr))) = Panic /\
-  fst (native_call NSort [] (Some ex_pa) (st_of ex_h)) <> Panic.
+Example sort_error_iff_ex :
+  native_call NSort [] (Some (snd ex_fn_arr)) (st_of (fst ex_fn_arr)) = (Ok NError, st_of (fst ex_fn_arr)) /\
+  fst (native_call NSort [] (Some ex_pa) (st_of ex_h)) <> Ok NError.
 Proof. vm_compute. split; [reflexivity|discriminate]. Qed.
+Example methods_total_ex :
+  fst (native_call NSort [] (Some (snd ex_fn_arr)) (st_of (fst ex_fn_arr))) <> Panic /\
+  fst (native_call NPop [] None (st_of ex_h)) <> Panic /\
+  fst (native_call NPluck [VBool true] (Some ex_pa) (st_of ex_h)) <> Panic.
+Proof. vm_compute. repeat split; discriminate. Qed.
 
 (* a method invoked on a receiver of another kind (or on none) returns its neutral value *)
 Theorem neutral_values : forall args this s,
